@@ -1,5 +1,5 @@
-CONSTANTS MaxDev = 1 MaxSteps = 2 CheckAll = TRUE
+CONSTANTS MaxDev = 1 MaxSteps = 2 CheckAll = TRUE Splits = {} CancelSafe = FALSE
 SPECIFICATION Spec
-INVARIANTS OkMeansClean ErrMeansDirty StopsAtBad SettledIsCache Emit
+INVARIANTS OkMeansClean ErrMeansDirty StopsAtBad SettledIsCache DevIsWrong Emit
 PROPERTIES VersionStable Terminates
 CHECK_DEADLOCK FALSE
